@@ -22,6 +22,7 @@ from pathlib import Path, PosixPath
 
 
 def universe() -> dict[str, type]:
+    from fileformats import field
     from pydra.utils.typing import MultiInputObj, MultiOutputType
 
     return {
@@ -33,6 +34,11 @@ def universe() -> dict[str, type]:
         "str": str,
         "bytes": bytes,
         "PosixPath": PosixPath,
+        # fileformats field classes named by COERCIBLE_DEFAULT (pure values, no file system involved)
+        "FieldInteger": field.Integer,
+        "FieldDecimal": field.Decimal,
+        "FieldText": field.Text,
+        "FieldBoolean": field.Boolean,
         # concrete container classes (values exist)
         "list": list,
         "tuple": tuple,
@@ -59,7 +65,8 @@ def universe() -> dict[str, type]:
     }
 
 
-ATOM_CLASSES = ["NoneType", "bool", "int", "float", "str", "bytes", "PosixPath"]
+ATOM_CLASSES = ["NoneType", "bool", "int", "float", "str", "bytes", "PosixPath", "FieldInteger", "FieldDecimal", "FieldText", "FieldBoolean"]
+FIELD_CLASSES = ["FieldInteger", "FieldDecimal", "FieldText", "FieldBoolean"]
 SEQ_VALUE_CLASSES = ["list", "tuple", "set", "frozenset", "MultiInputObj", "range", "dict_keys", "dict_values"]
 MAP_VALUE_CLASSES = ["dict"]
 # classes that may be subscripted in the type grammar, with their arity kind
@@ -201,6 +208,17 @@ def canon(v):
     if t is PosixPath:
         return ["a", "PosixPath", str(v)]
     uni = universe()
+    if t is uni["FieldInteger"]:
+        return ["a", "FieldInteger", int(v.value)]
+    if t is uni["FieldDecimal"]:
+        x = float(v.value)
+        if not x.is_integer():
+            raise Uncodable(f"non-integral Decimal {v!r}")
+        return ["a", "FieldDecimal", int(x)]
+    if t is uni["FieldText"]:
+        return ["a", "FieldText", str(v.value)]
+    if t is uni["FieldBoolean"]:
+        return ["a", "FieldBoolean", int(bool(v.value))]
     for n in SEQ_VALUE_CLASSES:
         if t is uni[n]:
             return ["s", n, [canon(x) for x in v]]
@@ -228,6 +246,14 @@ def val_to_py(j):
             return bytes(p)
         if c == "PosixPath":
             return PosixPath(p)
+        if c == "FieldInteger":
+            return uni[c](int(p))
+        if c == "FieldDecimal":
+            return uni[c](float(p))
+        if c == "FieldText":
+            return uni[c](str(p))
+        if c == "FieldBoolean":
+            return uni[c](bool(p))
         raise ValueError(j)
     if k == "s":
         c, items = j[1], [val_to_py(x) for x in j[2]]
@@ -311,7 +337,9 @@ CONTAINER_TYPES = (list, tuple, set, frozenset, dict, range, type({}.keys()), ty
 def str_image(v_in: str, out) -> bool:
     """What a `str` input may legitimately become: itself / a path-like or text atom carrying the whole
     string, or (MultiInputObj) a one-element list wrapping such an image -- never a container of its pieces."""
-    if isinstance(out, (str, os.PathLike)):
+    from fileformats import field
+
+    if isinstance(out, (str, os.PathLike, field.Text)):  # the whole string, as str / path / fileformats Text
         return True
     if isinstance(out, list) and len(out) == 1:  # list or MultiInputObj wrapping the whole string
         return str_image(v_in, out[0])
@@ -457,7 +485,7 @@ BYTES_POOL = [[], [97, 98], [0, 255], [105, 116, 39, 115], [1]]
 
 BASIC_COMMON = ["int", "float", "bool", "str", "bytes", "NoneType", "Path"]
 BASIC_CONTAINER = ["list", "tuple", "set", "frozenset", "dict", "MultiInputObj"]
-BASIC_ABSTRACT = ["object", "PathLike", "PosixPath", "Sequence", "Mapping", "SetABC", "Iterable", "Collection", "MutableSequence",
+BASIC_ABSTRACT = ["FieldInteger", "FieldDecimal", "FieldText", "FieldBoolean", "object", "PathLike", "PosixPath", "Sequence", "Mapping", "SetABC", "Iterable", "Collection", "MutableSequence",
                   "MutableSet", "MutableMapping", "range", "MultiOutputType"]  # fmt: skip
 
 MULTI_OUTPUT_OBJ = ["u", [["c", "list"], ["c", "object"], ["c", "MultiOutputType"]]]
@@ -532,7 +560,7 @@ def gen_type(rng, depth: int, allow_union: bool = True):
 
 
 def gen_atom(rng, cls=None):
-    cls = cls or rng.choice(["int", "int", "str", "str", "float", "bool", "NoneType", "bytes", "PosixPath"])
+    cls = cls or rng.choice(["int", "int", "str", "str", "float", "bool", "NoneType", "bytes", "PosixPath"] * 3 + FIELD_CLASSES)
     if cls == "NoneType":
         return ["a", "NoneType", None]
     if cls == "bool":
@@ -547,6 +575,14 @@ def gen_atom(rng, cls=None):
         return ["a", "bytes", list(rng.choice(BYTES_POOL))]
     if cls == "PosixPath":
         return ["a", "PosixPath", rng.choice(PATH_POOL)]
+    if cls == "FieldInteger":
+        return ["a", "FieldInteger", rng.choice(INT_POOL)]
+    if cls == "FieldDecimal":
+        return ["a", "FieldDecimal", rng.choice([0, 1, 2, -3, 300])]
+    if cls == "FieldText":
+        return ["a", "FieldText", rng.choice(STR_POOL)]
+    if cls == "FieldBoolean":
+        return ["a", "FieldBoolean", rng.choice([0, 1])]
     raise ValueError(cls)
 
 
@@ -662,7 +698,9 @@ def gen_conforming(rng, t, exotic: float = 0.0, depth: int = 3):
 
 
 NEIGHBOUR_CLS = {
-    "int": ["float", "bool", "str"], "float": ["int", "str"], "bool": ["int", "str"], "str": ["bytes", "Path", "int", "list"],
+    "int": ["float", "bool", "str", "FieldInteger", "FieldDecimal"], "float": ["int", "str", "FieldDecimal"], "bool": ["int", "str", "FieldBoolean"],
+    "str": ["bytes", "Path", "int", "list", "FieldText"], "FieldInteger": ["int", "float", "bool", "FieldDecimal"], "FieldDecimal": ["float", "int"],
+    "FieldText": ["str", "Path"], "FieldBoolean": ["bool", "int"],
     "bytes": ["str", "list"], "Path": ["str", "PathLike"], "NoneType": ["int", "str"], "list": ["tuple", "set", "str", "dict"],
     "tuple": ["list", "frozenset"], "set": ["frozenset", "list"], "frozenset": ["set", "tuple"], "dict": ["list", "Mapping"],
 }  # fmt: skip
